@@ -15,6 +15,8 @@ open RV.C04
 #print axioms pushdown_minus
 #print axioms pushdown_graph_unbound
 #print axioms push_graph_bound
+#print axioms pushdown_leftjoin
+#print axioms leftJoin_regroup
 #print axioms spec_bounds
 #print axioms bgp_perm
 #print axioms joinBag_comm
